@@ -31,7 +31,7 @@ table, configured excess) and the switch setting `codeToday`.
 import BHS.Model.Http
 import BHS.Model.Header
 import BHS.Model.HandlersWire
-import Driver.Ops.Chain
+import Driver.Ops.ChainFmt
 
 namespace Driver.Ops.Http
 open BHS BHS.Chain BHS.Http
